@@ -309,3 +309,26 @@ Proof.
   rewrite (independent sk _ Hs (parse_caught_with sk f ms' Hp) (reaches_with f ms' Hr Hne)).
   simpl. f_equal. clear -Hperm. induction Hperm; simpl; try lia.
 Qed.
+
+(* ---- parse_all's contract: the first list is ALL collected files ------------------ *)
+Lemma filter_all {A} (p : A -> bool) l : Forall (fun x => p x = true) l -> filter p l = l.
+Proof. induction 1; simpl; [reflexivity|]. rewrite H. f_equal. assumption. Qed.
+
+(* whenever some .mo file was collected the exit status is the number of bad files, however many
+   parsed; in particular, when EVERY collected file is bad it is the number of files (not the 1 of
+   "No Modelica files") *)
+Theorem every_file_bad sk f : skel_ok sk = true -> parse_caught sk f ->
+  f_argparse f = AOk -> (f_target f <> TNone -> f_models f <> []) -> usage_count f = 0 ->
+  f_target f <> TCasadi -> f_files f <> [] -> Forall (fun p => bad_file p = true) (f_files f) ->
+  main_with sk f = Exit (length (f_files f)).
+Proof.
+  intros Hs Hp Ha Hm Hu Ht Hf Hb. rewrite (count_correct sk f Hs Hp). f_equal.
+  unfold count. rewrite Ha, Hu.
+  assert (G : negb (is_tnone (f_target f)) && is_nil (f_models f) = false).
+  { destruct (f_target f) eqn:E; simpl; auto; destruct (f_models f); simpl; auto;
+      exfalso; apply Hm; congruence. }
+  rewrite G. simpl. unfold parse_count.
+  destruct (f_files f) as [|p fs] eqn:Ef; [congruence|]. cbn [is_nil].
+  rewrite (filter_all bad_file (p :: fs) Hb).
+  destruct (f_target f); try congruence; reflexivity.
+Qed.
